@@ -43,11 +43,16 @@ def chunk_sizes(**sizes):
         for name, val in sizes.items():
             if val is None:
                 continue
-            for modname, attr in CHUNK_ATTRS[name]:
-                mod = mods[modname]
-                if hasattr(mod, attr):
-                    saved.append((mod, attr, getattr(mod, attr)))
-                    setattr(mod, attr, int(val))
+            # every loaded mokapot module that holds a copy of the constant (modules bind it at import with
+            # `from .constants import ...`; a refactoring may add or move such copies)
+            attrs = {attr for _, attr in CHUNK_ATTRS[name]}
+            for modname, mod in list(mods.items()):
+                if mod is None or not (modname == "mokapot" or modname.startswith("mokapot.")):
+                    continue
+                for attr in attrs:
+                    if isinstance(getattr(mod, attr, None), int):
+                        saved.append((mod, attr, getattr(mod, attr)))
+                        setattr(mod, attr, int(val))
         yield
     finally:
         for mod, attr, old in reversed(saved):
